@@ -197,6 +197,28 @@ func wrap(expression, funcName string) string {
 	return fmt.Sprintf("%s(%s)", funcName, expression)
 }
 
+// takes a migrated expression and parenthesizes it if that is needed to use it as the operand of an operator,
+// e.g. 1 + 2 -> (1 + 2) but sum(1, 2) -> sum(1, 2)
+func asOperand(expression string) string {
+	parsed, err := excellent.Parse(expression, nil)
+	if err == nil {
+		switch parsed.(type) {
+		case *excellent.ContextReference, *excellent.DotLookup, *excellent.ArrayLookup, *excellent.FunctionCall, *excellent.Parentheses,
+			*excellent.TextLiteral, *excellent.NumberLiteral, *excellent.BooleanLiteral, *excellent.NullLiteral:
+			return expression
+		}
+	}
+	return "(" + expression + ")"
+}
+
+func asOperands(expressions []string) []string {
+	operands := make([]string, len(expressions))
+	for i := range expressions {
+		operands[i] = asOperand(expressions[i])
+	}
+	return operands
+}
+
 // MigrateStringLiteral migrates a string literal (legacy expressions use Excel "" escaping)
 func MigrateStringLiteral(s string) string {
 	// strip surrounding quotes
